@@ -27,6 +27,9 @@ def f%(K)d(x):
     return x + 100 * (%(K)d + 1)
 if "post" in mode:
     drv.c28_event(b"POST %(K)d %%d" %% drv.f%(K)d(7))
+if "sync2" in mode:
+    drv.c28_post(9 + 2 * %(K)d)
+    drv.c28_wait(10 + 2 * %(K)d)
 if "cross" in mode:
     drv.c28_event(b"CROSS %(K)d %%d" %% drv.f%(O)d(9))
 if "sleep" in mode:
